@@ -146,7 +146,7 @@ func SerializeKey(buf *bytes.Buffer, val value.Primary, flags *option.Flags) {
 		serializeInteger(buf, in.(*value.Integer).String())
 		value.Discard(in)
 	} else if f := value.ToFloat(val); !value.IsNull(f) {
-		serializeFloat(buf, f.(*value.Float).String())
+		serializeFloat(buf, floatKeyString(f.(*value.Float).Raw()))
 		value.Discard(f)
 	} else if dt := value.ToDatetime(val, flags.DatetimeFormat, flags.GetTimeLocation()); !value.IsNull(dt) {
 		serializeDatetime(buf, dt.(*value.Datetime).Raw())
@@ -195,6 +195,14 @@ func serializeInteger(buf *bytes.Buffer, s string) {
 func serializeFloat(buf *bytes.Buffer, s string) {
 	buf.Write([]byte{91, 70, 93})
 	buf.WriteString(s)
+}
+
+// floatKeyString returns the key text of a float. Negative zero equals zero.
+func floatKeyString(f float64) string {
+	if f == 0 {
+		f = 0
+	}
+	return value.Float64ToStr(f, false)
 }
 
 func serializeDatetime(buf *bytes.Buffer, t time.Time) {
